@@ -614,7 +614,9 @@ def _pure_eval(op, values, band):
     from .rng import Tape
     import warnings
     warnings.simplefilter('ignore')
-    f, a, k = build_call(op, lambda nm: values[nm], band)
+    # every *use* of a name gets its own copy: the pure call sees equal values, never shared
+    # identities (an option list that repeats one dict object must behave like equal-valued dicts)
+    f, a, k = build_call(op, lambda nm: copy.deepcopy(values[nm]), band)
     with Installed(Sim({'mode': 'fifo'}, Tape(0))):
         return call_outcome(f, a, k)
 
